@@ -108,7 +108,12 @@ func cmdCheck(eng *Engine, args []string, tier string, keep, verbose bool, start
 	stats := NewSolveStats()
 	results := verifyAllProp(eng, fcs, lemmas, prop, dir, batchMs, singleMs, stats, keep)
 
-	replayDir := filepath.Join(eng.verif, "replays", prop)
+	outRoot := eng.verif
+	if eng.repo != "/repo" {
+		// runs against a scratch copy (self-tests, seeded changes) must not overwrite the real evidence
+		outRoot = filepath.Join(eng.verif, "tmp", "scratch-run")
+	}
+	replayDir := filepath.Join(outRoot, "replays", prop)
 	os.RemoveAll(replayDir)
 	violations := 0
 	nObl, nDis := 0, 0
@@ -259,9 +264,9 @@ func cmdCheck(eng *Engine, args []string, tier string, keep, verbose bool, start
 		violations++
 		ev["violations"] = violations
 	}
-	os.MkdirAll(filepath.Join(eng.verif, "evidence"), 0o755)
+	os.MkdirAll(filepath.Join(outRoot, "evidence"), 0o755)
 	data, _ := json.MarshalIndent(ev, "", " ")
-	os.WriteFile(filepath.Join(eng.verif, "evidence", prop+".json"), data, 0o644)
+	os.WriteFile(filepath.Join(outRoot, "evidence", prop+".json"), data, 0o644)
 	for _, l := range lines {
 		fmt.Println(l)
 	}
